@@ -342,6 +342,8 @@ def _interval_types(ctx, accepts: bool = False) -> None:
 
 
 def _rust_and_ladder(ctx) -> None:
+    from . import C13
+    C13.parse_results_tabulate(ctx)
     pm = pmod("parser")
     fn = pm.func("_parse")
     classes = set()
